@@ -8,7 +8,7 @@ THEOREMS = [
     'raw_edges', 'raw_negative_base_witness', 'api_wait_bounds', 'monitor_accepts', 'feasible_sound', 'feasible_complete',
     # RetryWithCtx (hand-written model LLRP.Retry.run, tied by the differential run)
     'runs_total', 'runs_exhaust', 'below_one_is_one', 'terminates', 'stops_at_once', 'success_iff_last_ok',
-    'failure_reason', 'entry_is_vacuous', 'kept_errors', 'waits_are_nextWait', 'waits_bounded',
+    'failure_reason', 'entry_is_vacuous', 'kept_errors', 'waits_are_nextWait', 'waits_bounded', 'deadline_respects_max',
 ]
 MODULES = ['LLRP.Model.Retry', 'LLRP.Model.GoInt', 'LLRP.Proofs.Retry', 'LLRP.Oracle.C18']
 RULE = ('nextWait: n in -2..70 and 5 extreme n x (base, max) in {0, 1, 1ms, 1s, 1min, 2^62, 2^63-1, 3 random, -1, -2^63, random negative}^2 '
@@ -16,7 +16,8 @@ RULE = ('nextWait: n in -2..70 and 5 extreme n x (base, max) in {0, 1, 1ms, 1s, 
         'decided arithmetically by the Lean model). RetryWithCtx: every outcome sequence over {ok, recoverable, fatal} of length <= 6 '
         'x retries {-5..5 incl. Forever} x KeepErrs {0,1,2,10,-3} on a live context; the wrappers RetrySome and Retry on sequences of length <= 4; context ended at entry; context ending '
         '(Canceled / DeadlineExceeded) at each wait position of every sequence of length <= 6, 3 trials each which must agree; waits of an '
-        'hour cut short by the context; wait-exceeds-deadline at each wait position; elapsed time >= sum of the model waits. '
+        'hour cut short by the context; wait-exceeds-deadline at each wait position; elapsed time >= sum of the model waits; '
+        '15 policies whose pauses are microseconds or hours under a context whose deadline lies 30 min ahead (the deadline check shows the magnitude of the pause of the policy as configured). '
         'Compared: call count, nil/non-nil, MainErr class, errors.Is against ErrRetriesExceeded/Canceled/DeadlineExceeded/'
         'ErrWaitExceedsDeadline/every operation error, len(Others) and its content, Attempts. '
         'distinct = distinct request lines; non-trivial = nextWait requests with n >= 1 and non-zero base and max, '
@@ -40,6 +41,8 @@ def nontrivial(r):
         return not p[4].startswith('-') and p[4] != '0'
     if p[0] == 'nextwait-feasible':
         return p[1] != '0' and p[2] != '0' and not p[3].startswith('-') and p[3] != '0'
+    if p[0] == 'retry-probe':
+        return True
     if p[0] in ('retry', 'retry-elapsed'):
         outs, ctx = p[3], p[4]
         return outs.startswith('r') or len(ctx) > 1 or ctx[0] in 'CD'
@@ -96,6 +99,8 @@ def clause_of(r, e, o):
     """which clause of the property the observation contradicts (the model's answer e is proved to satisfy all)"""
     parts = r.split(' ')
     verb = parts[0]
+    if verb == 'retry-probe':
+        return 'deadline_respects_max' if 'main=W' in o and 'main=W' not in e else 'waits_are_nextWait'
     if verb != 'retry':
         return verb
     ctx = parts[4]
@@ -142,6 +147,12 @@ def report(res, r, e, o, clause, n_same):
         res.violation('nextwait:%s:%s:1:%s' % (b, m, n),
                       'nextWait(BackOff=%s, Max=%s, Jitter=true, attempts=%s) returned %s, which no draw 0 <= s < 2^attempts yields in the proved model (%s)%s'
                       % (b, m, n, w, o if o != 'yes' else e, more),
+                      'input', True, case=[r], expected=[e], observed=[o])
+    elif verb == 'retry-probe':
+        res.violation('retry-probe:%s:%s' % (clause, ' '.join(parts[1:4])),
+                      'RetryWithCtx(cfg=BackOff,Max,KeepErrs,Jitter=%s, retries=%s, outcomes=%s) under a context whose deadline lies %s ns ahead: observed [%s]; '
+                      'with the pauses of the policy as configured the proved model gives [%s] (the pause compared with the deadline is not min(Max, BackOff*2^(n-1)))%s'
+                      % (parts[1], parts[2], parts[3], parts[4], o, e, more),
                       'input', True, case=[r], expected=[e], observed=[o])
     elif verb == 'retry-elapsed':
         res.violation('retry-elapsed:' + ' '.join(parts[1:5]), 'RetryWithCtx returned after %s ns: %s (the waits were not slept through)%s' % (parts[5], e, more),
